@@ -30,21 +30,29 @@ def apply(items, muts, rng):
         blocked = "altloc_blocked" in muts
         out, cur, curkey = [], [], None
 
+        labels = rng.choice([("A", "B"), ("A", "B"), ("B", "A"), ("B", "C"), ("1", "2"), ("X", "A")])
+        info["altloc_labels"] = labels
+
         def flush():
             if not cur:
                 return
             if rng.random() < 0.5:
                 chosen = [a for a in cur if a["name"] not in ("N", "CA", "C") and rng.random() < 0.5]
                 ids = {id(a) for a in chosen}
+                # some atoms carry a lone non-blank label without a partner record
+                lone = {id(a) for a in cur if id(a) not in ids and a["name"] not in ("N", "CA", "C") and rng.random() < 0.1}
                 if blocked:
-                    out.extend(dict(a, alt="A") if id(a) in ids else a for a in cur)
+                    out.extend(dict(a, alt=labels[0]) if id(a) in ids else dict(a, alt=labels[1]) if id(a) in lone else a
+                               for a in cur)
                     for a in chosen:
-                        out.append(dict(a, alt="B", x=a["x"] + 0.7, y=a["y"] - 0.4, z=a["z"] + 0.3, occ=0.4))
+                        out.append(dict(a, alt=labels[1], x=a["x"] + 0.7, y=a["y"] - 0.4, z=a["z"] + 0.3, occ=0.4))
                 else:
                     for a in cur:
                         if id(a) in ids:
-                            out.append(dict(a, alt="A", occ=0.6))
-                            out.append(dict(a, alt="B", x=a["x"] + 0.7, y=a["y"] - 0.4, z=a["z"] + 0.3, occ=0.4))
+                            out.append(dict(a, alt=labels[0], occ=0.6))
+                            out.append(dict(a, alt=labels[1], x=a["x"] + 0.7, y=a["y"] - 0.4, z=a["z"] + 0.3, occ=0.4))
+                        elif id(a) in lone:
+                            out.append(dict(a, alt=labels[1], occ=0.5))
                         else:
                             out.append(a)
             else:
@@ -135,8 +143,12 @@ def apply(items, muts, rng):
             # hetero atoms listed before MODEL 1 (outside any model)
             out.append("HETATM    1  O   HOH W 900      55.000  55.000  55.000  1.00  0.00           O")
             info["pre_model_atoms"] = 1
+        scheme = rng.choice(["1..n", "1..n", "9..", "2,10", "descending"])
+        numbers = {"1..n": list(range(1, nmodels + 1)), "9..": list(range(9, 9 + nmodels)),
+                   "2,10": [2, 10, 11, 12][:nmodels], "descending": list(range(nmodels, 0, -1))}[scheme]
+        info["model_numbers"] = numbers
         for m in range(nmodels):
-            out.append("MODEL     %4d" % (m + 1))
+            out.append("MODEL     %4d" % numbers[m])
             for ln in body:
                 if m and ln.startswith(("ATOM", "HETATM")):
                     a = pdbfmt.parse_atom_line(ln)
